@@ -127,9 +127,12 @@ class TabEnv(AbstractEnv):
     def aidx(self, action):
         A = self.P.shape[1]
         if self.box_action:
-            lo, hi = self.action_space.low, self.action_space.high
+            lo, hi = self.action_space.low.reshape(()), self.action_space.high.reshape(())
             a = jnp.asarray(action, dtype=float).reshape(())
-            return jnp.clip(jnp.floor((a - lo.reshape(())) * A / (hi.reshape(()) - lo.reshape(()))), 0, A - 1).astype(int)
+            fl, fh = jnp.isfinite(lo), jnp.isfinite(hi)
+            # both bounds finite: A equal cells; one finite bound (half-bounded box): unit cells counted from that bound
+            rawi = jnp.where(fl & fh, (a - lo) * A / (hi - lo), jnp.where(fl, a - lo, jnp.where(fh, hi - a, 0.0)))
+            return jnp.clip(jnp.floor(rawi), 0, A - 1).astype(int)
         return jnp.asarray(action, dtype=int).reshape(())
 
     def aval(self, action):
@@ -244,6 +247,12 @@ def random_tab(rng, *, box_action=None, box_obs=None, mask=None, nS=None, trunc_
         lo = dy(-4, 2, 2)
         width = float(rng.choice([1.0, 2.0, 4.0]))
         spec["asp"] = ["box", bool(rng.random() < 0.3), lo, lo + width]
+        # a fifth of the Box action spaces have ONE finite bound only (e.g. [0, inf)): clipping must still apply to that bound
+        r = rng.random()
+        if r < 0.1:
+            spec["asp"][3] = None
+        elif r < 0.2:
+            spec["asp"][2] = None
     else:
         spec["asp"] = ["disc", A]
     if box_obs:
